@@ -18,11 +18,13 @@ import (
 	"net/http/httptest"
 	"net/textproto"
 	"os"
+	"path/filepath"
 	"sort"
 	"strings"
 	"sync"
 	"time"
 
+	"github.com/ghodss/yaml"
 	middlewareapi "github.com/oauth2-proxy/oauth2-proxy/v7/pkg/apis/middleware"
 	"github.com/oauth2-proxy/oauth2-proxy/v7/pkg/apis/options"
 	sessionsapi "github.com/oauth2-proxy/oauth2-proxy/v7/pkg/apis/sessions"
@@ -515,6 +517,7 @@ func init() {
 		hdrWire(c)
 		hdrLegacy(c)
 		hdrAlphaMerge(c)
+		hdrAlphaFile(c)
 		hdrE2E(c)
 		c.close([]string{"alpha:merge", "canon:valid", "canon:invalid", "unit:req", "unit:resp", "wire:req", "legacy:flags",
 			"sess:nil", "sess:cookie-like", "sess:bearer-like", "sess:basic-like", "sess:random",
@@ -779,6 +782,94 @@ func hdrAlphaMerge(c *suiteCtx) {
 	}
 }
 
+// hdrAlphaFile: the same through the real YAML loader (`options.LoadYAML`, the function behind --alpha-config).
+//   * a file written the way --convert-config-to-alpha writes it loads to exactly the header lists it spells out;
+//   * a file that spells a header list out TWICE (a merge left-over: the key appears two times) is refused — if the
+//     loader ever accepts it, every header name written anywhere in the file must be in force (none silently dropped:
+//     a dropped name is neither stripped nor derived from the session).
+func hdrAlphaFile(c *suiteCtx) {
+	r := c.rng.fork()
+	dir, err := os.MkdirTemp("", "verif-alpha")
+	if err != nil {
+		return
+	}
+	defer os.RemoveAll(dir)
+	names := []string{"X-Forwarded-User", "X-Forwarded-Email", "Authorization", "X-Strip-Only", "X-Custom", "X-Forwarded-Groups", "X-Auth-Request-User"}
+	mk := func() []options.Header {
+		var hs []options.Header
+		for n := 1 + r.intn(4); n > 0; n-- {
+			h := options.Header{Name: r.pick(names), PreserveRequestValue: r.intn(3) == 0}
+			if r.intn(3) != 0 {
+				h.Values = []options.HeaderValue{{ClaimSource: &options.ClaimSource{Claim: r.pick([]string{"user", "email", "groups"})}}}
+			}
+			hs = append(hs, h)
+		}
+		return hs
+	}
+	same := func(in, out []options.Header) bool {
+		if len(in) != len(out) {
+			return false
+		}
+		for k := range in {
+			if in[k].Name != out[k].Name || in[k].PreserveRequestValue != out[k].PreserveRequestValue || len(in[k].Values) != len(out[k].Values) {
+				return false
+			}
+		}
+		return true
+	}
+	list := func(hs []options.Header) []string {
+		var out []string
+		for _, h := range hs {
+			out = append(out, fmt.Sprintf("%s(%d values, preserve=%v)", h.Name, len(h.Values), h.PreserveRequestValue))
+		}
+		return out
+	}
+	for i := 0; i < 120; i++ {
+		a := &options.AlphaOptions{InjectRequestHeaders: mk(), InjectResponseHeaders: mk()}
+		data, err := yaml.Marshal(a)
+		if err != nil {
+			continue
+		}
+		file := filepath.Join(dir, fmt.Sprintf("a%d.yaml", i))
+		os.WriteFile(file, data, 0o600)
+		var got options.AlphaOptions
+		c.casen(fmt.Sprintf("alpha-file|%d", i), "")
+		c.count("alpha:file")
+		if err := options.LoadYAML(file, &got); err != nil {
+			c.violation("C07", "the YAML loader rejects a header configuration written by --convert-config-to-alpha", map[string]interface{}{"file": string(data), "error": err.Error()})
+			continue
+		}
+		if !same(a.InjectRequestHeaders, got.InjectRequestHeaders) || !same(a.InjectResponseHeaders, got.InjectResponseHeaders) {
+			c.violation("C07", "the header lists in force differ from the ones the alpha configuration file spells out", map[string]interface{}{"file": string(data),
+				"request_in_force": list(got.InjectRequestHeaders), "response_in_force": list(got.InjectResponseHeaders)})
+		}
+		// the same file with a second injectRequestHeaders block appended
+		b := &options.AlphaOptions{InjectRequestHeaders: mk()}
+		data2, _ := yaml.Marshal(b)
+		dup := append(append([]byte{}, data...), data2...)
+		file2 := filepath.Join(dir, fmt.Sprintf("d%d.yaml", i))
+		os.WriteFile(file2, dup, 0o600)
+		var got2 options.AlphaOptions
+		c.casen(fmt.Sprintf("alpha-dup|%d", i), "")
+		if err := options.LoadYAML(file2, &got2); err != nil {
+			c.count("alpha:dup-refused")
+			continue
+		}
+		c.count("alpha:dup-loaded")
+		inForce := map[string]bool{}
+		for _, h := range got2.InjectRequestHeaders {
+			inForce[h.Name] = true
+		}
+		for _, h := range append(append([]options.Header{}, a.InjectRequestHeaders...), b.InjectRequestHeaders...) {
+			if !inForce[h.Name] {
+				c.violation("C07", "a request header the operator's alpha configuration file names ("+h.Name+") is not in force: the file spells injectRequestHeaders out twice, it was loaded instead of refused, and one block was dropped silently — that name is neither stripped nor derived from the session",
+					map[string]interface{}{"file": string(dup), "in_force": list(got2.InjectRequestHeaders)})
+				break
+			}
+		}
+	}
+}
+
 func hdrLegacy(c *suiteCtx) {
 	for m := 0; m < 512; m++ {
 		for _, pw := range []string{"", "pw", "p:w x"} {
@@ -837,6 +928,35 @@ func hdrLegacy(c *suiteCtx) {
 				if !gotResp[n] {
 					c.violation("C07", "legacy options: the auth-only response header "+n+" that this flag combination configures is missing from the injected list",
 						map[string]interface{}{"flags": fmt.Sprintf("%+v", l), "configured_names": fmt.Sprint(gotResp)})
+				}
+			}
+			// monitor: WHICH session value each named header carries (documented per flag: X-Forwarded-User / the basic-auth
+			// user name is the e-mail address only under prefer-email-to-user, which is documented for pass-basic-auth and
+			// pass-user-headers alone; X-Auth-Request-<X> is the session's <x>)
+			userClaim := "user"
+			if l.PreferEmailToUser {
+				userClaim = "email"
+			}
+			wantSrc := map[string]map[string]string{
+				"request": {"X-Forwarded-User": userClaim, "X-Forwarded-Email": "email", "X-Forwarded-Groups": "groups",
+					"X-Forwarded-Preferred-Username": "preferred_username", "X-Forwarded-Access-Token": "access_token"},
+				"response": {"X-Auth-Request-User": "user", "X-Auth-Request-Email": "email", "X-Auth-Request-Groups": "groups",
+					"X-Auth-Request-Preferred-Username": "preferred_username", "X-Auth-Request-Access-Token": "access_token"},
+			}
+			for side, hs := range map[string][]options.Header{"request": rq, "response": rs} {
+				for _, h := range hs {
+					want, ok := wantSrc[side][http.CanonicalHeaderKey(h.Name)]
+					if !ok {
+						continue
+					}
+					if len(h.Values) != 1 || h.Values[0].ClaimSource == nil || h.Values[0].ClaimSource.Claim != want || h.Values[0].ClaimSource.Prefix != "" || h.Values[0].ClaimSource.BasicAuthPassword != nil {
+						got := "no single plain claim"
+						if len(h.Values) == 1 && h.Values[0].ClaimSource != nil {
+							got = "claim " + h.Values[0].ClaimSource.Claim
+						}
+						c.violation("C07", "legacy options: the "+side+" header "+h.Name+" does not carry the session's "+want+" ("+got+")",
+							map[string]interface{}{"flags": fmt.Sprintf("%+v", l)})
+					}
 				}
 			}
 			// monitor: skip-auth-strip-headers decides preservation of every request header
